@@ -303,3 +303,12 @@ class Check:
         print("OK property=%s tier=%s wall=%.1fs %s" % (self.pid, self.tier, wall,
               " ".join("%s=%s" % (k, v) for k, v in cov.items() if isinstance(v, (int, bool)))))
         return 0
+
+
+def tvh_shards(args_fn, nshards=None, profile="chk", as_gb=8):
+    """Run `tvh <args_fn(shard, nshards)>` for every shard in parallel; returns the JSON summaries."""
+    from concurrent.futures import ThreadPoolExecutor
+    nshards = nshards or NCPU
+    build(profile)
+    with ThreadPoolExecutor(max_workers=NCPU) as ex:
+        return list(ex.map(lambda k: tvh_json(args_fn(k, nshards), profile=profile, as_gb=as_gb), range(nshards)))
